@@ -24,23 +24,39 @@ type hDDObject struct {
 
 // hDerivedList returns a derived list (one or two embedding levels) registered with Init.
 func hDerivedList(values ...any) List {
-	if nondetIntRange(0, 1) == 0 {
+	switch nondetIntRange(0, 2) {
+	case 0:
 		d := &hDList{List: NewList(values...), tag: 7}
 		d.Init(d)
 		return d
+	case 1:
+		d := &hDDList{hDList: &hDList{List: NewList(values...), tag: 7}, extra: "x"}
+		d.Init(d)
+		return d
 	}
-	d := &hDDList{hDList: &hDList{List: NewList(values...), tag: 7}, extra: "x"}
+	// constructor chaining as in the README: the intermediate level registers itself first, the outer
+	// level registers again — the last registration is the outer value
+	inner := &hDList{List: NewList(values...), tag: 7}
+	inner.Init(inner)
+	d := &hDDList{hDList: inner, extra: "x"}
 	d.Init(d)
 	return d
 }
 
 func hDerivedObject(values ...any) Object {
-	if nondetIntRange(0, 1) == 0 {
+	switch nondetIntRange(0, 2) {
+	case 0:
 		d := &hDObject{Object: NewObject(values...), tag: 7}
 		d.Init(d)
 		return d
+	case 1:
+		d := &hDDObject{hDObject: &hDObject{Object: NewObject(values...), tag: 7}, extra: "x"}
+		d.Init(d)
+		return d
 	}
-	d := &hDDObject{hDObject: &hDObject{Object: NewObject(values...), tag: 7}, extra: "x"}
+	inner := &hDObject{Object: NewObject(values...), tag: 7}
+	inner.Init(inner)
+	d := &hDDObject{hDObject: inner, extra: "x"}
 	d.Init(d)
 	return d
 }
